@@ -491,6 +491,40 @@ pub fn run(run: &mut Run) {
         for c in &cases {
             run.case("elements_tiny", c, elem_case);
         }
+        // nearly ordered data: every rotation of a sorted sample, a sorted sample with a few smaller values appended,
+        // and one element moved — for every size 4..=70 (an "already in order?" scan must not be fooled at any position)
+        let mut nearly = vec![];
+        for n in 4usize..=70 {
+            let sorted: Vec<u8> = (0..n as u8).collect();
+            let conf = Conf::new((n % 3) as u8, [0.9, 0.5, 0.95][n % 3]);
+            let ty = ["i32", "f64"][n % 2];
+            let q = [0.5, 0.3, 0.8][n % 3];
+            for r in 1..n {
+                let mut d = sorted.clone();
+                d.rotate_left(r);
+                nearly.push(ElemCase { ty: ty.into(), codes: d, conf, q: X(q) });
+            }
+            for k in 1..=3usize.min(n - 2) {
+                // the k smallest values at the end
+                let mut d: Vec<u8> = sorted[k..].to_vec();
+                d.extend_from_slice(&sorted[..k]);
+                nearly.push(ElemCase { ty: ty.into(), codes: d, conf, q: X(q) });
+            }
+            for from in [0, n / 2, n - 1] {
+                for to in [0, 1, n / 3, n - 2, n - 1] {
+                    if from != to {
+                        let mut d = sorted.clone();
+                        let v = d.remove(from);
+                        d.insert(to.min(d.len()), v);
+                        nearly.push(ElemCase { ty: ty.into(), codes: d, conf, q: X(q) });
+                    }
+                }
+            }
+        }
+        let nr = &nearly;
+        run.par(nearly.len(), |i, obs| {
+            crate::engine::case_on(obs, "elements_nearly_sorted", &nr[i], elem_case);
+        });
         run.exhaustive_parts.push("sample sizes 0..=8 x 14 admissible / inadmissible quantiles x 3 kinds through every data front-end against ci_indices".into());
     }
     // random multisets with ties, random permutations
@@ -557,7 +591,7 @@ pub fn replay(sub: &str, v: &Value, obs: &mut Obs) -> Option<PResult> {
         "history" => crate::props::history::case(&de(v), obs),
         "rank" | "rank_random" => rank_case(&de(v), obs),
         "index" => index_case(&de(v), obs),
-        "elements" | "elements_random" | "elements_tiny" => elem_case(&de(v), obs),
+        "elements" | "elements_random" | "elements_tiny" | "elements_nearly_sorted" => elem_case(&de(v), obs),
         "elements_large" => Ok(()),
         _ => return None,
     })
